@@ -1039,7 +1039,12 @@ fn emit_lifted(cx: &mut Ctx, specs: &mut Specs, em: &mut Emitter, gens: &[&syn::
         }
         own = format!("own_join({}, own_of(&{}))", own, c);
     }
-    em.raw(&format!("pub open spec fn {}__code() -> int {{ {} }}", lc.name, fnv(&lc.name)));
+    // a closure literal the contracts do not know, which captures nothing, takes nothing and whose body is empty once the log lines are
+    // dropped, does nothing when called: its code id is 0 (`hx_noop_code`), which the models of "call this boxed closure" know about
+    let noop = lc.captures.is_empty() && lc.inputs.is_empty() && !lc.is_async_block && specs.sections.get(&format!("sig {}", lc.name)).is_none() && specs.sections.get(&format!("sig {}", ctor)).is_none()
+        && lc.body.stmts.iter().all(|st| match st { syn::Stmt::Macro(m) => rewrite::is_dropped_macro(&m.mac), syn::Stmt::Expr(syn::Expr::Macro(m), _) => rewrite::is_dropped_macro(&m.mac), _ => false });
+    let code_id = if noop { cx.fire("L1z"); 0 } else { fnv(&lc.name) };
+    em.raw(&format!("pub open spec fn {}__code() -> int {{ {} }}", lc.name, code_id));
     let start = em.line();
     em.raw("#[verifier::external_body] // @closure-constructor: a closure object owns exactly what its literal captures (Rust semantics)");
     let ret_obj = specs.get(&format!("ret {}", ctor)).map(|s| s.trim().to_string()).unwrap_or_else(|| "ClosureObj".to_string());
@@ -1077,7 +1082,7 @@ fn emit_lifted(cx: &mut Ctx, specs: &mut Specs, em: &mut Emitter, gens: &[&syn::
         }
         None => em.raw(&format!("pub fn {}{}({}) -> (r: {})", ctor, if tps.is_empty() { String::new() } else { format!("<{}>", tps.join(", ")) }, ps.join(", "), ret_obj)),
     }
-    em.raw(&format!("    ensures r.captured() == {}, r.code() == {},", own, fnv(&lc.name)));
+    em.raw(&format!("    ensures r.captured() == {}, r.code() == {},", own, code_id));
     if let Some(extra) = specs.get(&format!("new {}", lc.name)) { em.raw_block(&positional(extra, lc), ""); }
     em.raw("{ unimplemented!() }");
     em.functions.push(emit::FnInfo { name: ctor.clone(), file: file.to_string(), src_line: lc.line, gen_start: start, gen_end: em.line(), kind: "closure-constructor".into(), path: lc.name.clone(), loops: 0, captured: lc.captures.clone() });
